@@ -32,7 +32,10 @@ def sharded_verdict(ctx, spec_dirs, module, lines, env, cases_key, verdict_key, 
 
     def one(job):
         off, wd, e, cnt = job
-        tlc.evaluate(wd, module, env=e, timeout=timeout, heap="3g")
+        (Path(wd) / "eval.cfg").write_text("")
+        res = tlc.run(wd, module, "eval.cfg", workers=1, env=e, timeout=timeout, heap="3g", java_opts=("-XX:ParallelGCThreads=2",))
+        if res.violations:
+            raise tlc.TLCFailure(f"evaluation of {module} failed: {[v.name for v in res.violations]}\n{res.out[-2000:]}")
         v = json.loads((Path(wd) / "verdict.json").read_text())
         if v["n"] != cnt:
             raise RuntimeError(f"verdict shard at {off}: TLC judged {v['n']} of {cnt} cases")
